@@ -132,6 +132,7 @@ struct PropC19
     p.W = (int)r.range(sc == S_ONLINE_VAR ? 2 : 1, 4);
     checkupConfig(sc, p);
     if (sc == S_SHARED_VAR || sc == S_SHARED_OPT) {p.a = r.chance(0.3) ? 1 : 0;}   // constructor variant
+    if (sc == S_SHARED_VAR) {p.b = r.chance(0.25) ? 1 : 0;}                            // SharedVariable<bool> instead of <Blob>
     int budget = tier == "thorough" ? 48 : 32;   // operations per recorded history
     auto take = [&](int n) {n = std::min(n, budget); budget -= n; return n;};
     if (sc == S_SHARED_OPT) {
@@ -206,6 +207,7 @@ struct PropC19
     p.W = (int)r.range(sc == S_ONLINE_VAR ? 2 : 1, 4);
     checkupConfig(sc, p);
     if (sc == S_SHARED_VAR || sc == S_SHARED_OPT) {p.a = r.chance(0.3) ? 1 : 0;}
+    if (sc == S_SHARED_VAR) {p.b = r.chance(0.25) ? 1 : 0;}
     const uint32_t total = 100000;
     if (sc == S_SHARED_OPT) {
       int np = (int)r.range(1, 4), nc = (int)r.range(1, 4);
@@ -292,6 +294,7 @@ struct PropC19
     if (p.longRun) {SIM_PROBE("long_run_1e5_operations");}
     if (p.sched.policy == 1) {SIM_PROBE("pct_schedule");}
     if (p.sched.useTrace) {SIM_PROBE("explicit_schedule_replayed");}
+    if (p.scenario == S_SHARED_VAR && p.b != 0) {SIM_PROBE("shared_variable_of_bool");}
     {
       static Slot * slot = nullptr; static uint64_t * ctr[S_COUNT];
       if (slot != gSlot) {for (int k = 0; k < S_COUNT; ++k) {ctr[k] = &counter((std::string("op.scenario_") + scenarioName(k)).c_str());} slot = gSlot;}
@@ -549,7 +552,7 @@ struct PropC19
   }
   std::vector<std::string> probeNames() const
   {
-    return {"preempted_while_holding_the_mutex", "thread_blocked_on_contended_mutex", "long_run_1e5_operations", "pct_schedule", "optional_born_with_a_value", "final_state_checked_after_long_run"};
+    return {"preempted_while_holding_the_mutex", "thread_blocked_on_contended_mutex", "long_run_1e5_operations", "pct_schedule", "optional_born_with_a_value", "final_state_checked_after_long_run", "shared_variable_of_bool"};
   }
   Json describe() const
   {
